@@ -336,6 +336,13 @@ def caption_sets(thorough):
     yield "cue end and next start inside one millisecond", {"langs": {"en-US": [(S, 2 * S + 400, ["a"], None, None),
                                                                                 (2 * S + 900, 3 * S, ["b"], None, None),
                                                                                 (3 * S + 999, 4 * S, ["c"], None, None)]}}
+    # cues of one language that overlap: a later cue starts in the very millisecond at which an earlier, still running one ends,
+    # and two cues that are not neighbours start together
+    yield "overlapping cues, a start at an earlier cue's end", {"langs": {"en-US": [
+        (S, 5 * S, ["long"], None, None), (2 * S, 3 * S, ["short"], None, None), (5 * S, 6 * S, ["next"], None, None)]}}
+    yield "overlapping cues, equal starts apart", {"langs": {"en-US": [
+        (S, 4 * S, ["one"], None, None), (2 * S, 3 * S, ["two"], None, None), (S, 3 * S, ["three"], None, None),
+        (6 * S, 7 * S, ["four"], None, None)]}}
     yield "concurrent captions", {"langs": {"en-US": [(S, 2 * S, ["up"], L1, None), (S, 2 * S, ["down"], L2, None),
                                                       (3 * S, 4 * S, ["next"], None, None)]}}
     yield "one language code a prefix of another", {"langs": {"en-US": [(3 * S, 4 * S, ["american"], None, None)],
@@ -641,7 +648,17 @@ def _judge_sami(spec, parsed, doc, case, bad):
     starts = [s for s, _ in parsed.syncs]
     overlapping = any(a[1] > b[0] for caps in spec["langs"].values() for a, b in zip(caps, caps[1:]))
     if overlapping:
-        return          # cues that overlap within a language are outside the SAMI clauses' domain (sorted, non-overlapping)
+        # cues that overlap within a language: the blank-sync clause is stated for a language's *next* cue and is not judged,
+        # but "one timed cue per caption, in order" is - for the language written first (later languages are filed into the
+        # syncs that exist): its paragraphs with text, in document order, start where its captions start, in caption order
+        lang, caps = next(iter(spec["langs"].items()))
+        if re.fullmatch(r"[A-Za-z0-9-]+", lang) and not style_classes(spec):
+            got = [s for s, ps in parsed.syncs for cls, text in ps if (cls or "").lower() == lang.lower() and norm(text) != ""]
+            want = [int(s) // 1000 for s, e, items, _, _ in caps if any(norm(t) for t, _ in lines_of(items))]
+            if got != want:
+                bad["sami_syncs"].append(dict(case, language=lang, why="overlapping cues: the cues with text are not one per caption "
+                                              "in caption order", starts_in_document_order=got, required=want))
+        return
     if starts != sorted(starts):
         bad["sami_syncs"].append(dict(case, why="sync blocks are not in non-decreasing time order", starts=starts))
     # per language: the paragraphs labelled with a class that is (or contains) that language
